@@ -11,7 +11,8 @@ RULE = ('(1) token stream: sources = fixtures of /repo + generated lexeme soups 
         'only elementary type names may be spanless; (3) diagnostic labels: for every single-fault unit of C02 in 1-3 files each label lies in a file of '
         'the set, is non-empty, starts and ends on lexeme boundaries, covers the marker name of the planted fault, and for duplicate names the primary '
         'label is the later declaration and the secondary the first; (4) the ranges of the diagnostics published over LSP for documents with non-ASCII '
-        'comments before the labelled text are the line/character of the label offsets')
+        'comments before the labelled text are the line/character of the label offsets; (5) the snippet headers `file:line:col` that `ironplcc check` prints '
+        'for multi-file sets are positions of labels of the diagnostic in the file the label names, one snippet per labelled file')
 
 
 def lex_cases(ctx):
@@ -208,6 +209,62 @@ def lsp_ranges(ctx):
             if got: ctx.feature(('lsp-range', fk, len(got)))
 
 
+def cli_labels(ctx):
+    """what `ironplcc check` prints for a set of files: every snippet header `file:line:col` of a diagnostic is the
+    position of one of that diagnostic's labels, in the file that label names, and every file a label names has a snippet"""
+    from .. import cli
+    rng = ctx.rng
+    sets = []
+    for trial in range(8 if ctx.quick() else 120):
+        base, ns = units.gen_valid(rng, size=1)
+        ss = units.plant_all(base, ns, rng)
+        if not ss: continue
+        for (fk, code, ds) in rng.sample(ss, min(len(ss), 3)):
+            files = units.split_files(rng, ds, rng.choice([2, 3]))
+            texts = [units.print_file(f, rng) for f in files]
+            if all(texts): sets.append((fk, texts))
+    ana = core.run_lines(core.VH, ['project ' + ' '.join(core.hexs(t) for t in texts) for fk, texts in sets], jobs=8)
+    import concurrent.futures as cf
+    def do(x):
+        fk, texts = x
+        return cli.check_files({f'f{i}.st': t for i, t in enumerate(texts)}, order=[f'f{i}.st' for i in range(len(texts))])
+    with cf.ThreadPoolExecutor(8) as ex:
+        res = list(ex.map(do, sets))
+    for (fk, texts), o, r in zip(sets, ana, res):
+        ctx.evaluations += 1
+        ctx.count('cli-labels:sets')
+        if not o.startswith('ERR'): continue
+        expected = {}     # code -> list of (file name, line(1-based), {cols (1-based)})
+        for d in o.split(' ')[1:]:
+            if '@' not in d or d.startswith('PARSE'): continue
+            code, rest = d.split('@', 1)
+            for lab in rest.split('!')[0].split('+'):
+                m = re.match(r'^f(\d+)\.st:(\d+)-(\d+)$', lab)
+                if not m or int(m.group(1)) >= len(texts): continue
+                raw = texts[int(m.group(1))].encode('utf-8')
+                line, cols = lexcheck.line_col_candidates(raw, int(m.group(2)))
+                expected.setdefault(code, []).append((f'f{m.group(1)}.st', line + 1, {c + 1 for c in cols}))
+        show = {'fault': fk, 'texts': texts}
+        bad = None
+        for (code, f, line, col) in r['labels']:
+            if f is None or code not in expected: continue
+            if not any(f == e[0] and line == e[1] and col in e[2] for e in expected[code]):
+                bad = f'`ironplcc check` shows a snippet of {code} at {f}:{line}:{col}, which is not the position of a label of that diagnostic {[(e[0], e[1], sorted(e[2])) for e in expected[code]]}'
+                break
+        if bad is None:
+            for code, labs in expected.items():
+                shown = {f for (c, f, l, k) in r['labels'] if c == code}
+                if not shown: continue        # (diagnostics the CLI does not print are C13's subject)
+                missing = {e[0] for e in labs} - shown
+                if missing:
+                    bad = f'{code} has a label in {sorted(missing)} but `ironplcc check` shows no snippet of that file for it'
+                    break
+        if bad:
+            ctx.violations.append({'stream': 'cli-labels', 'case': show, 'impl': cli.strip_ansi(r['stderr'])[-600:], 'model': o[:300], 'what': bad})
+        else:
+            ctx.feature(('cli-labels', fk, len(texts)))
+
+
 def run(ctx):
     core.prepare(ctx, need_binary=True)
     cases = lex_cases(ctx)
@@ -217,6 +274,7 @@ def run(ctx):
     id_spans(ctx)
     diag_labels(ctx)
     lsp_ranges(ctx)
+    cli_labels(ctx)
     return core.finish(ctx, level='proof', rule=RULE,
                        assumptions=['logos error extent is a calibrated parameter of the model (tiling is proved for every policy)',
                                     'a line break is \\n; a column may be counted in bytes, chars or UTF-16 units'])
